@@ -21,7 +21,8 @@ EXPLANATION = (
     "under their labels, missing/empty ones are zero and rows with unknown items are ignored; and when set_values_from_df refuses, "
     "the pre-existing target array must be untouched (same values object, same entries). In addition: both flags default to False "
     "at every declaration, and the CSV/Excel readers and from_csv/from_excel forward them unswapped (evaluated with a recording "
-    "importer).")
+    "importer). "
+    "Fault kinds also include unknown items in the first / in a single-item dimension's column, a stray row placed first, repeated row labels; dimension columns headed by name and by letter.")
 TECHNIQUE = "static analysis: abstract interpretation of the import path over a fault matrix (faults x flag combinations) with a pandas model; defaults and flag forwarding rules"
 
 ARRAYS_QUICK = [("t", "a"), ("a", "s", "b")]
